@@ -141,14 +141,27 @@ def handle : Handler := fun input impl =>
   if impl.startsWith "CRASH" || impl.startsWith "HANG" || impl.startsWith "PANIC" then
     ("-", s!"fail:crash:the engine did not end: {impl.take 200}") else
   if getS o "res" == "noinstr" then ("-", s!"skip:no-instrumented-worker:{getS o "why"}") else
-  if getS o "res" != "ok" then ("-", s!"fail:abnormal-end:{getS o "res"}") else
+  let runaway := getS o "res" == "runaway"
+  -- fault plan `panic=k`: the k-th Shoot panics.  The pool then does not end normally (out of the property's scope) —
+  -- but what was acquired must still have been released exactly once and never used while not held
+  let injected := (getN? kv "panic").isSome && ((getS o "res").splitOn "shoot_panic").length > 1
+  if getS o "res" != "ok" && !runaway && !injected then ("-", s!"fail:abnormal-end:{getS o "res"}") else
   let pools := max 1 ((getN? kv "pools").getD 1)
   match (List.range pools).mapM (poolOf kv o pools) with
   | none => ("-", s!"fail:crash:unparsable observation {impl.take 80}")
   | some prs =>
+    if injected then
+      match prs.find? (fun p => p.cnt.acquired != p.cnt.released || p.cnt.doubleRelease || p.cnt.maxReleases > 1
+                                 || p.cnt.minReleases != 1 || p.cnt.usedAfterRelease) with
+      | some p => ("-", s!"fail:release:after a gun panic: acquired {p.cnt.acquired} released {p.cnt.released} double={p.cnt.doubleRelease} used-after-release={p.cnt.usedAfterRelease}")
+      | none => ("-", "skip:injected-gun-panic-ends-the-pool-abnormally")
+    else
     let req := (getN? o "req").getD 0
     let resp := (getN? o "resp").getD 0
     let v := verdict (prs.map fun p => (p.cfg, p.cnt)) req resp
+    -- the harness cut a run that went on far beyond what a finite profile allows: what the counters say at that moment
+    if runaway then ("-", if v.startsWith "fail:unfired" || v.startsWith "fail:release" || v.startsWith "fail:use" then v
+                          else s!"fail:abnormal-end:runaway, the pool does not end ({getS o "started"} instances)") else
     -- fine logs are only in operation order while the controller let one instance run at a time
     if getS kv "fine" == "1" && getS o "partial" != "0" then ("-", v) else
     match prs.findSome? (·.err) with
